@@ -17,7 +17,10 @@ func relInput(c *core.Ctx, p *population, idx int) (data []byte, desc string, fi
 	r := c.Rng(idx, 0x8e1)
 	fi = r.Intn(len(p.files))
 	f := p.files[fi]
-	switch k := r.Intn(10); {
+	switch k := r.Intn(12); {
+	case k >= 10: // grammar-based shape (fi = -2: its natural entries follow from its signature)
+		d, ds := gen.Shape(r)
+		return d, ds, -2
 	case k < 4:
 		return f.Data, "file=" + f.Name, fi
 	case k < 6:
@@ -49,6 +52,14 @@ func relInput(c *core.Ctx, p *population, idx int) (data []byte, desc string, fi
 	}
 }
 
+// natEntries returns the natural entry points of an input drawn by relInput / workInput.
+func natEntries(p *population, fi int, data []byte) []int {
+	if fi >= 0 {
+		return p.natural[fi]
+	}
+	return EntriesFor(p.entries, gen.KindOf(data))
+}
+
 // C08 — results do not depend on how the reader chunks its data.
 type C08 struct {
 	once sync.Once
@@ -58,7 +69,7 @@ type C08 struct {
 func (e *C08) ID() string    { return "C08" }
 func (e *C08) Level() string { return "fault_enumeration" }
 func (e *C08) Rule() string {
-	return "each case is one input x (valid corpus/generated file of every container, a truncation at a structure boundary or random point, or a 1-2 operator malformation) run through its natural entry points plus one random one, first over an in-memory reader and then over every chunk schedule of a fixed list (1 byte at a time; 2; 3; 7; the cycle 1,2,3,7,8,9,63,64,65,511,4095,4096,4097; 4095; 4096; 4097; 64,1; 5,1000; 13; 511,1,1,1; 65536; 8192,100; each also with the last bytes delivered together with io.EOF; and whole requests honoured in full with the last bytes delivered together with io.EOF, which is what reaches a buffered reader's direct-read path) plus a seeded random schedule, all with a working Seek and pristine library state before each call. Oracle: canonical observation (values and error text) identical to the in-memory run. Zero-length reads are never produced. Non-trivial: the chunked run performed >=2 short reads; distinct = (entry, schedule, outcome class)."
+	return "each case is one input x (valid corpus/generated file of every container, a truncation at a structure boundary, inside an out-of-line value or at a random point, a 1-2 operator malformation, or a grammar-based shape) run through its natural entry points plus one random one, first over an in-memory reader and then over every chunk schedule of a fixed list (1 byte at a time; 2; 3; 7; the cycle 1,2,3,7,8,9,63,64,65,511,4095,4096,4097; 4095; 4096; 4097; 64,1; 5,1000; 13; 511,1,1,1; 65536; 8192,100; each also with the last bytes delivered together with io.EOF; and whole requests honoured in full with the last bytes delivered together with io.EOF, which is what reaches a buffered reader's direct-read path) plus a seeded random schedule, all with a working Seek and pristine library state before each call. Oracle: canonical observation (values and error text) identical to the in-memory run. Zero-length reads are never produced. Non-trivial: the chunked run performed >=2 short reads; distinct = (entry, schedule, outcome class)."
 }
 func (e *C08) Assumptions() []string {
 	return []string{"schedules are enumerated from a fixed list for every input; the input population is seeded", "1-byte schedules are applied to inputs up to 96 KiB (the corpus cap)"}
@@ -76,7 +87,7 @@ func (e *C08) Run(c *core.Ctx, idx int) {
 	p := e.pop
 	data, desc, fi := relInput(c, p, idx)
 	r := c.Rng(idx, 8)
-	ents := append([]int(nil), p.natural[fi]...)
+	ents := append([]int(nil), natEntries(p, fi, data)...)
 	ents = append(ents, r.Intn(len(p.entries)))
 	scheds := append([][]int(nil), schedules...)
 	scheds = append(scheds, randSched(r), []int{65536}, []int{8192, 100}, nil)
